@@ -31,10 +31,53 @@ Proof.
   intros v' w' Hin. apply H. right. assumption.
 Qed.
 
+(* ---- the regenerated fragments (Gen/SimExec.v) ------------------------------
+   Each lemma below is about a definition that py/genfrag_C01.py translates from
+   the CURRENT source of pyrtl/simulation.py / wire.py; it is re-proved on every
+   run, so a source edit that changes what the fragment computes stops here. *)
+
+(* Simulation._sanitize / WireVector.bitmask:  val & ((1 << bitwidth) - 1) *)
+Lemma sx_sanitize_spec v w : sx_sanitize v w = sanitize v w.
+Proof.
+  cbv beta delta [sx_sanitize sx_bitmask sanitize mask Z.ones].
+  rewrite Z.sub_1_r. reflexivity.
+Qed.
+
+Lemma sx_sanitize_mod v w : 0 <= w -> sx_sanitize v w = v mod 2 ^ w.
+Proof. intros. rewrite sx_sanitize_spec. apply sanitize_mod. assumption. Qed.
+
+(* _execute 'c', one iteration: shift by the argument's width, or its value in *)
+Lemma sx_concat_step_arith r v w : 0 <= w -> inrange v w -> sx_concat_step r (v, w) = r * 2 ^ w + v.
+Proof.
+  intros Hw Hv. cbv beta zeta delta [sx_concat_step]. cbn [fst snd].
+  apply lor_shiftl_add; assumption.
+Qed.
+
+Lemma sx_concat_init_spec : sx_concat_init = 0.
+Proof. reflexivity. Qed.
+
+(* _execute 'c' walks net.args first to last *)
+Lemma sx_concat_order_spec (A : Type) (l : list A) : sx_concat_order l = l.
+Proof. reflexivity. Qed.
+
+Lemma sx_concat_fold args : forall acc,
+  (forall v w, In (v, w) args -> 0 <= w /\ inrange v w) ->
+  fold_left sx_concat_step args acc =
+  fold_left (fun acc vw => acc * 2 ^ (snd vw) + fst vw) args acc.
+Proof.
+  induction args as [|[v w] rest IH]; intros acc H; cbn [fold_left fst snd]; [reflexivity|].
+  destruct (H v w (or_introl eq_refl)) as [Hw Hv].
+  rewrite sx_concat_step_arith by assumption. apply IH.
+  intros v' w' Hin. apply H. right. assumption.
+Qed.
+
 Lemma sim_concat_spec args :
   (forall v w, In (v, w) args -> 0 <= w /\ inrange v w) ->
   sim_concat args = concat_spec args.
-Proof. intros. unfold sim_concat, concat_spec. apply sim_concat_gen. assumption. Qed.
+Proof.
+  intros. unfold sim_concat, concat_spec.
+  rewrite sx_concat_order_spec, sx_concat_init_spec. apply sx_concat_fold. assumption.
+Qed.
 
 Lemma land_1_shiftr src b : 0 <= b -> Z.land 1 (Z.shiftr src b) = b2z (Z.testbit src b).
 Proof.
@@ -52,13 +95,65 @@ Proof.
   unfold inrange, b2z. destruct (Z.testbit src b); simpl; lia.
 Qed.
 
+(* _execute 's', one iteration: shift by one, or bit b of the source in *)
+Lemma sx_select_step_arith src r b : 0 <= b ->
+  sx_select_step src r b = b2z (Z.testbit src b) + 2 * r.
+Proof.
+  intros Hb. cbv beta zeta delta [sx_select_step]. apply select_step. assumption.
+Qed.
+
+Lemma sx_select_init_spec : sx_select_init = 0.
+Proof. reflexivity. Qed.
+
+(* _execute 's' walks op_param LAST to first (op_param[::-1]), so that op_param[0]
+   ends up as bit 0 of the result *)
+Lemma sx_select_order_spec (A : Type) (l : list A) : sx_select_order l = rev l.
+Proof. reflexivity. Qed.
+
+(* the operand positions the source reads *)
+Lemma sx_select_src_arg_spec : sx_select_src_arg = 0%nat.
+Proof. reflexivity. Qed.
+
+Lemma sx_mem_read_addr_arg_spec : sx_mem_read_addr_arg = 0%nat.
+Proof. reflexivity. Qed.
+
+(* _execute 'm': memvalue[memid].get(read_addr, default_value) *)
+Lemma sx_mem_get_spec d a dflt : sx_mem_get d a dflt = assoc_d d a dflt.
+Proof. reflexivity. Qed.
+
+(* _mem_update: `if write_enable: memvalue[memid][write_addr] = write_val` with
+   (write_addr, write_val, write_enable) = values of (args[0], args[1], args[2]) *)
+Lemma sx_mem_write_cond_spec a0 a1 a2 : sx_mem_write_cond a0 a1 a2 = negb (a2 =? 0).
+Proof. reflexivity. Qed.
+
+Lemma sx_mem_write_addr_spec a0 a1 a2 : sx_mem_write_addr a0 a1 a2 = a0.
+Proof. reflexivity. Qed.
+
+Lemma sx_mem_write_data_spec a0 a1 a2 : sx_mem_write_data a0 a1 a2 = a1.
+Proof. reflexivity. Qed.
+
+(* step: regvalue[dest] = _sanitize(value[args[0]], dest) *)
+Lemma sx_reg_capture_spec x w : sx_reg_capture x w = sanitize x w.
+Proof. cbv beta delta [sx_reg_capture]. apply sx_sanitize_spec. Qed.
+
+Lemma sx_reg_capture_mod x w : 0 <= w -> sx_reg_capture x w = x mod 2 ^ w.
+Proof. intros. rewrite sx_reg_capture_spec. apply sanitize_mod. assumption. Qed.
+
+Lemma sx_mem_write_spec a0 a1 a2 :
+  sx_mem_write_cond a0 a1 a2 = negb (a2 =? 0)
+  /\ sx_mem_write_addr a0 a1 a2 = a0 /\ sx_mem_write_data a0 a1 a2 = a1.
+Proof.
+  split; [apply sx_mem_write_cond_spec|split; [apply sx_mem_write_addr_spec|apply sx_mem_write_data_spec]].
+Qed.
+
 Lemma sim_select_spec src idx : (forall i, In i idx -> 0 <= i) ->
   sim_select src idx = select_spec src idx.
 Proof.
   intros H. unfold sim_select, select_spec.
+  rewrite sx_select_order_spec, sx_select_init_spec.
   rewrite <- fold_left_rev_right. rewrite rev_involutive.
   induction idx as [|i rest IH]; cbn [fold_right]; [reflexivity|].
-  rewrite select_step by (apply H; left; reflexivity).
+  rewrite sx_select_step_arith by (apply H; left; reflexivity).
   rewrite IH by (intros; apply H; right; assumption). reflexivity.
 Qed.
 
